@@ -852,6 +852,63 @@ func c03PrefixFromZero(p *Prog, r *Report) {
 			if lowMin == nil || !hasUpper {
 				continue
 			}
+			// every decoded branch is put to the test: from the decode of the displacement no way leads on to the next
+			// instruction (the loop header) or to a successful return without passing the first of the bound tests
+			{
+				var firstTest *ssa.If
+				for _, g := range guardsAt(ret.Block()) {
+					bo, ok := g.Cond.(*ssa.BinOp)
+					if !ok || g.If == nil || !isIntegerType(bo.X.Type()) {
+						continue
+					}
+					form := map[string]int64{}
+					var kk int64
+					linForm(k, bo.X, 1, form, &kk, 0)
+					linForm(k, bo.Y, -1, form, &kk, 0)
+					isT := false
+					for key, c := range form {
+						if c != 0 && rel[key] {
+							isT = true
+						}
+					}
+					if isT && (firstTest == nil || g.If.Block().Dominates(firstTest.Block())) {
+						firstTest = g.If
+					}
+				}
+				var decode *ssa.Call
+				eachInstr(f, func(i ssa.Instruction) {
+					if cl, ok := i.(*ssa.Call); ok && rel[k.Key(cl)] {
+						decode = cl
+					}
+				})
+				if firstTest != nil && decode != nil {
+					inTest := func(i ssa.Instruction) bool { return i.Block() == firstTest.Block() }
+					skipped := ""
+					for _, b := range f.Blocks {
+						// loop headers around the decode, and successful returns
+						isHdr := false
+						for _, pr := range b.Preds {
+							if b.Dominates(pr) && b.Dominates(decode.Block()) {
+								isHdr = true
+							}
+						}
+						var target ssa.Instruction
+						if isHdr {
+							target = b.Instrs[0]
+						} else if rt, ok := lastInstr(b).(*ssa.Return); ok && isNilConst(retResult(rt, errIndex(f.Signature))) {
+							target = rt
+						}
+						if target == nil {
+							continue
+						}
+						if decode.Block() != firstTest.Block() && reachableAvoiding(decode, target, inTest) {
+							skipped = p.Pos(posOf(target))
+						}
+					}
+					r.Check(skipped == "", "C03.R3", "every decoded branch is tested against the overwritten prefix in "+shortName(f), p.Pos(posOf(decode)), "no way from the displacement decode to the next instruction or to success avoids the bound tests",
+						"some branches are exempted from the test for targets inside the overwritten bytes (a `continue` or early exit between decoding the displacement and the test): a branch the exemption covers can still land in bytes that are rewritten differently in the placeholder (a widened short jump moves everything behind it)")
+				}
+			}
 			// the scan that looks for such branches runs over the whole function, not just over the bytes that will be
 			// overwritten: the loop that advances the position is bounded by something other than the refused interval's
 			// upper end
